@@ -6,6 +6,8 @@ package c14
 
 import (
 	"context"
+	"encoding/json"
+	"errors"
 	"fmt"
 	"math/rand"
 	"reflect"
@@ -52,6 +54,17 @@ var tmTypes = []reflect.Type{
 	reflect.TypeOf(TMStruct{}), reflect.TypeOf(&TMStruct{}), reflect.TypeOf(&TMPtrOnly{}),
 	reflect.TypeOf(TMStr("")), reflect.TypeOf(TMStruct{}), reflect.TypeOf(&TMStruct{}),
 	tTMInt, reflect.PtrTo(tTMInt),
+}
+
+// oddSlices: less common slice / element shapes (named byte slices, slices of
+// named uint8 with and without text marshalers, json.RawMessage, named slices
+// with their own marshalers).
+var tRawMessage = reflect.TypeOf(json.RawMessage(nil))
+
+var oddSlices = []reflect.Type{
+	reflect.TypeOf(NBytes(nil)), reflect.TypeOf([]NU8(nil)), reflect.TypeOf([]TMU8(nil)), reflect.TypeOf([]TMU8P(nil)),
+	tRawMessage, reflect.TypeOf(TMList(nil)), reflect.TypeOf(JSList(nil)), reflect.TypeOf([]NBytes(nil)),
+	reflect.TypeOf([]json.RawMessage(nil)), reflect.TypeOf(TMU8(0)), reflect.TypeOf([]*TMU8(nil)),
 }
 
 var argFieldTypes = []reflect.Type{
@@ -151,9 +164,11 @@ func (f *funcSpec) opts() string {
 type execState struct {
 	mu          sync.Mutex
 	panics      []string
+	failed      []string    // resolvers that returned an injected error
 	enumOmitted atomic.Bool // a batch func left out an entry of enum type
 	tmOmitted   atomic.Bool // a batch func left out an entry of a text-marshaler struct type
 	resolved    atomic.Int64
+	errInjected atomic.Int64 // resolvers that returned an injected error
 }
 
 type schemaInst struct {
@@ -161,6 +176,7 @@ type schemaInst struct {
 	sb         *schemabuilder.Schema
 	objs       []*objSpec
 	salt       atomic.Int64
+	errKind    atomic.Int32 // 0: resolvers never fail; otherwise index+1 into injectedErrors
 	exec       atomic.Pointer[execState]
 	enumVals   map[reflect.Type][]reflect.Value
 	feats      map[string]bool
@@ -228,6 +244,12 @@ func (g *schemaGen) genType(depth int, objs []reflect.Type) reflect.Type {
 			return []reflect.Type{tEnumI, tEnumS, tEnumAl}[r.Intn(3)]
 		case k < 44:
 			return reflect.PtrTo([]reflect.Type{tEnumI, tEnumAl}[r.Intn(2)])
+		case k < 46:
+			if depth < 2 {
+				continue // not inside another slice: the introspection query reports 7 wrapper levels
+			}
+			g.s.feats["odd_slice_types"] = true
+			return pick(r, oddSlices)
 		case k < 50:
 			t := pick(r, tmTypes)
 			if t == tTMInt || t == reflect.PtrTo(tTMInt) {
@@ -504,7 +526,7 @@ func (g *schemaGen) addFunc(o *objSpec, wantComposite bool) {
 	case mode < 34 && !o.root:
 		// batch with fallback: graphql types of both must agree, which holds for
 		// nullable Go types, lists, NonNullable fields and result-less funcs
-		ok := !f.hasRet || f.nonNull || f.retType.Kind() == reflect.Ptr || (f.retType.Kind() == reflect.Slice && f.retType.Elem().Kind() != reflect.Uint8)
+		ok := !f.hasRet || f.nonNull || f.retType.Kind() == reflect.Ptr || (f.retType.Kind() == reflect.Slice && f.retType.Elem().Kind() != reflect.Uint8 && typeClass(f.retType)[:2] == "[]")
 		if ok {
 			f.batch, f.fallback = true, true
 			if f.srcKind == 0 {
@@ -672,6 +694,40 @@ func (s *schemaInst) seedOf(src reflect.Value) uint64 {
 	return 0
 }
 
+// injectedErrors: what a resolver may fail with in the error leg. The request
+// context is alive in all of them (the resolver's own sub-context gave up).
+var injectedErrors = []struct {
+	name string
+	err  error
+}{
+	{"context.Canceled", context.Canceled},
+	{"context.DeadlineExceeded", context.DeadlineExceeded},
+	{"wrapped context.Canceled", fmt.Errorf("downstream call: %w", context.Canceled)},
+	{"wrapped context.DeadlineExceeded", fmt.Errorf("downstream call: %w", context.DeadlineExceeded)},
+	{"own sub-context cancelled", func() error {
+		ctx, cancel := context.WithCancel(context.Background())
+		cancel()
+		return fmt.Errorf("fetch: %w", ctx.Err())
+	}()},
+	{"ordinary error", errors.New("resolver failed")},
+}
+
+// injected decides, deterministically from the resolver's seed, whether this
+// invocation fails in the error leg.
+func (s *schemaInst) injected(seed uint64, st *execState, f *funcSpec) error {
+	k := s.errKind.Load()
+	if k == 0 || (seed*0x9e3779b97f4a7c15)>>61 != 0 { // one invocation in eight
+		return nil
+	}
+	if st != nil {
+		st.errInjected.Add(1)
+		st.mu.Lock()
+		st.failed = append(st.failed, f.owner.name+"."+f.name+" "+f.sig()+" "+f.opts())
+		st.mu.Unlock()
+	}
+	return injectedErrors[k-1].err
+}
+
 func (s *schemaInst) plainFunc(f *funcSpec, owner reflect.Type) reflect.Value {
 	var in, out []reflect.Type
 	if f.hasCtx {
@@ -709,6 +765,14 @@ func (s *schemaInst) plainFunc(f *funcSpec, owner reflect.Type) reflect.Value {
 			seed ^= s.seedOf(args[idx])
 		}
 		var res []reflect.Value
+		if f.hasErr {
+			if e := s.injected(seed^f.hash, s.exec.Load(), f); e != nil {
+				if f.hasRet {
+					res = append(res, reflect.Zero(f.retType))
+				}
+				return append(res, reflect.ValueOf(e).Convert(tErr))
+			}
+		}
 		if f.hasRet {
 			vg := &valGen{s: s, r: newRand(seed ^ f.hash)}
 			if f.paginated {
@@ -762,6 +826,14 @@ func (s *schemaInst) batchFunc(f *funcSpec, owner reflect.Type) reflect.Value {
 			idx++
 		}
 		var res []reflect.Value
+		if f.hasErr && args[idx].Len() > 0 { // with no sources there is no field to fail
+			if e := s.injected(salt^f.hash^uint64(args[idx].Len()), st, f); e != nil {
+				if f.hasRet {
+					res = append(res, reflect.MakeMap(outMap))
+				}
+				return append(res, reflect.ValueOf(e).Convert(tErr))
+			}
+		}
 		if f.hasRet {
 			m := reflect.MakeMapWithSize(outMap, args[idx].Len())
 			it := args[idx].MapRange()
@@ -811,6 +883,9 @@ func (g *valGen) value(t reflect.Type, depth int, nonNil bool) reflect.Value {
 	switch t {
 	case tTime:
 		return reflect.ValueOf(time.Unix(1500000000+int64(r.Intn(1000000)), 0).UTC())
+	case tRawMessage:
+		// valid JSON that is not a JSON string
+		return reflect.ValueOf(json.RawMessage([]string{`{"raw":1}`, `[1,2]`, `17`, `{"a":{"b":[true]}}`}[r.Intn(4)]))
 	case tBytes:
 		switch r.Intn(4) {
 		case 0:
